@@ -10,6 +10,7 @@ def plan(tier, seed, scale):
     # flat profiles cannot reach the sub-time mechanism of KF-subtime-data-path at all
     return {"n_cases": sizes(tier, scale, 3200, 80000), "variants": 4,
             "profiles": ["data", "data_flat", "core", "flat", "par", "par_flat", "events", "events_flat", "deep", "big"],
+            "remote_cases": int((32 if tier == "quick" else 1600) * scale),
             "timeout_s": 600 if tier == "quick" else 7200}
 
 
